@@ -90,6 +90,19 @@ Theorem C36_forged_change_nothing : forall st s,
 Proof. exact forged_change_nothing. Qed.
 Print Assumptions C36_forged_change_nothing.
 
+Theorem C36_forged_example :
+  let st := upd no_names nA (Some (Owner true)) in
+  on_signal st (fsig false nA) nA = Some (Owner true) /\
+  on_signal st {| s_sender := None; s_acquired := false; s_name := nA |} nA = Some (Owner true) /\
+  on_signal st (gsig false nA) nA = None.
+Proof. exact forged_vs_genuine. Qed.
+Print Assumptions C36_forged_example.
+
+(* the `.unwrap()`s on the rule builder in request_name_with_flags never fire (a panic is a value of the model) *)
+Theorem C36_request_never_panics : forall st n flags ans, ro_result (request st n flags ans) <> RPanic.
+Proof. exact request_never_panics. Qed.
+Print Assumptions C36_request_never_panics.
+
 (* which signals reach a monitor, derived from the model of MatchRule::matches (C21) on the rule the code builds *)
 Theorem C36_delivered : forall acq n s,
   delivered acq n s = genuine s && Bool.eqb acq (s_acquired s) && lbeq n (s_name s).
